@@ -234,60 +234,72 @@ class JSONDriver(BaseDriver):
         path, ext = os.path.splitext(self._file_path)
         return f'{path}_backup{ext}'
 
+    def _get_temp_file_path(self) -> Optional[str]:
+        if not self._file_path:
+            return None
+        path, ext = os.path.splitext(self._file_path)
+        return f'{path}_temp{ext}'
+
     def _load(self) -> UnindexedData:
         if not self._file_path:
             return {}
 
         logger.debug('loading from %s', self._file_path)
 
+        backup_file_path = self._get_backup_file_path() if self._use_backup else None
+
         try:
-            # If the file is accessible but empty, consider data loaded and return empty dictionary
-            if os.stat(self._file_path).st_size == 0:
-                logger.debug('file %s is empty', self._file_path)
-                return {}
+            empty = os.stat(self._file_path).st_size == 0
         except FileNotFoundError:
-            # If the file does not exist, consider data loaded and return empty dictionary
-            logger.debug('file %s does not exist', self._file_path)
-            return {}
+            empty = True
 
-        try:
-            with open(self._file_path, 'rb') as f:
-                data = f.read()
-                return json_utils.loads(data, extra_types=json_utils.EXTRA_TYPES_EXTENDED)
-        except Exception as e:
-            if not self._use_backup:
-                raise
+        if empty:
+            # A missing or empty file normally means that there is no data yet. However, a save operation interrupted
+            # right after moving the file to its backup leaves no data file behind; the backup then holds the data.
+            logger.debug('file %s does not exist or is empty', self._file_path)
+            if not backup_file_path or not os.path.exists(backup_file_path):
+                return {}
+        else:
+            try:
+                with open(self._file_path, 'rb') as f:
+                    data = f.read()
+                    return json_utils.loads(data, extra_types=json_utils.EXTRA_TYPES_EXTENDED)
+            except Exception as e:
+                if not backup_file_path:
+                    raise
 
-            # Upon failure, if using a backup, simply log the error and attempt to load from backup file
-            logger.error('failed to load from %s: %s', self._file_path, e, exc_info=True)
+                # Upon failure, if using a backup, simply log the error and attempt to load from backup file
+                logger.error('failed to load from %s: %s', self._file_path, e, exc_info=True)
 
-            backup_file_path = self._get_backup_file_path()
-            if backup_file_path:
-                logger.warning('loading from backup %s', backup_file_path)
+        logger.warning('loading from backup %s', backup_file_path)
 
-                with open(backup_file_path, 'rb') as f:
-                    return json_utils.loads(f.read(), extra_types=json_utils.EXTRA_TYPES_EXTENDED)
-
-        return {}
+        with open(backup_file_path, 'rb') as f:
+            return json_utils.loads(f.read(), extra_types=json_utils.EXTRA_TYPES_EXTENDED)
 
     def _save(self, data: UnindexedData) -> None:
         if not self._file_path:
             return
 
-        if self._use_backup and os.path.exists(self._file_path):
-            backup_file_path = self._get_backup_file_path()
-            if not backup_file_path:
-                return
-            logger.debug('backing up %s to %s', self._file_path, backup_file_path)
-            os.rename(self._file_path, backup_file_path)
-
         logger.debug('saving to %s', self._file_path)
 
-        with open(self._file_path, 'wb') as f:
-            data = json_utils.dumps(
-                data, extra_types=json_utils.EXTRA_TYPES_EXTENDED, indent=4 if self._pretty_format else None
-            )
+        data = json_utils.dumps(
+            data, extra_types=json_utils.EXTRA_TYPES_EXTENDED, indent=4 if self._pretty_format else None
+        )
+
+        # Never write the data file in place: an interruption would leave it empty or truncated. Write a temporary file
+        # and atomically move it over the data file when it is complete.
+        temp_file_path = self._get_temp_file_path()
+        with open(temp_file_path, 'wb') as f:
             f.write(data.encode())
+            f.flush()
+            os.fsync(f.fileno())
+
+        if self._use_backup and os.path.exists(self._file_path):
+            backup_file_path = self._get_backup_file_path()
+            logger.debug('backing up %s to %s', self._file_path, backup_file_path)
+            os.replace(self._file_path, backup_file_path)
+
+        os.replace(temp_file_path, self._file_path)
 
     @staticmethod
     def _index(data: UnindexedData) -> IndexedData:
